@@ -21,16 +21,17 @@ TRUSTED_BASE = [
     "extraction (ExtrOcamlBasic only) and the OCaml integer driver",
 ]
 ASSUMPTIONS = ["strings are sequences of Unicode scalar values (no lone surrogates)"]
-TECHNIQUE = "executable RFC 9535 ABNF recognizer proved sound and complete in Coq, run against compile() on near-miss and garbage strings; lexer/parser model correspondence; partial Coq theorems on lexical sublanguages"
+TECHNIQUE = "Coq theorem: the lexer+parser model accepts only strings derivable from the transcribed ABNF (lexer invariant, parser soundness for a typed token grammar, derivation building); executable ABNF recognizer proved sound and complete, run against compile() on near-miss, lookalike and garbage strings; lexer/parser model correspondence"
 LEVEL = "proof"
-LEVEL_TEXT = ("Proved: C04_parser_sound - for every registry and range and every token list of the shape the lexer produces (one EOF, last; INDEX tokens are digits; '..' is followed by a name, '*' or '['), "
-              "Parser.parse returns a query only if the typed token-level grammar derives the tokens for it (bracket structure, separators, slices, operator precedence, parentheses, typing, integer range); "
-              "C04_parser_exact - with C05_complete_tokens, exactly then; C04_tokens_wf - every token list the lexer returns has that shape (state-machine invariant; what the INDEX pattern can match is derived "
-              "from the backtracking matcher); C04_compile_sound_tokens - so whatever compile() accepts was tokenised into a list the grammar derives for the returned query. Also: the grammar recognizer used as oracle is sound and complete for the transcribed ABNF (in_rfc_sound, in_rfc_complete). "
-              "NOT proved (partial): the character level - that the tokens' texts plus the blank space skipped between them spell a string of the ABNF; every generated string "
-              "outside the grammar must be rejected by the real compile().")
-LEVEL_NOTE = ("Partial: lexer -> ABNF is not proved; detection rests on the proved oracle run differentially plus the model correspondence. "
-              "Trusted: Coq kernel, grammar transcriptions (Spec/Rfc9535Grammar.v, QT in Proofs/ParseComplete.v), extraction and driver.")
+LEVEL_TEXT = ("Proved in full in the model, for every registry, integer range and text over Unicode scalar values: C04_sound - if compile() returns a query the text is derivable from the "
+              "transcribed RFC 9535 ABNF, character by character; C04_reject - a text that is not derivable raises a JSONPathError (with C13_compile_total). Layers: C04_parser_sound / C04_parser_exact "
+              "(Parser.parse accepts exactly the lexer-shaped token lists the typed token grammar QT derives), C04_tokens_wf, C04_text_is_tokens (lexer invariant over all 8 states and three stacks: the text is "
+              "'$' then gap, token text, gap, token text ... with the gaps - blanks, nothing after '..', blanks then '.', adjacent quotes and '(' - decided by an abstract machine over token types), "
+              "Proofs/TextSound.v (induction on the QT derivation running that machine; every construct restores mode and stacks) and Proofs/AbnfDerive.v (names, integers, string bodies with escapes and "
+              "surrogate pairs, numbers: derivations from what the lexer's regexes can match - matcher soundness w.r.t. the regex language - and what the parser checks). "
+              "Also: the grammar recognizer used as oracle is sound and complete for the transcribed ABNF (in_rfc_sound, in_rfc_complete); every generated string outside the grammar must be rejected by the real compile().")
+LEVEL_NOTE = ("The theorem is about the model (Model/Lex.v, Model/Parse.v), tied to lex.py / parse.py by regenerated tables and this correspondence. "
+              "Trusted: Coq kernel, the grammar transcription Spec/Rfc9535Grammar.v (one marked reading decision), extraction and driver.")
 
 CLASSICS = ["$.a-b", "$[1:2 3]", "$[?@.a==-01]", "$[?!!@.a]", "$[?(@.a)==1]", "$[?count(@.a,)==1]", "$[?@.a==1==1]", "$[?!true]", "$[?@.a == !@.b]",
             " $", "$ ", "$.a ", "$ .a", "$. a", "$.  a", "$[01]", "$[-0]", "$[0:-0]", "$[1.0]", "$[1e2]", "$[?@.a==01]", "$[?@.a==1.]", "$[?@.a==.5]", "$[?@.a==+1]",
